@@ -133,7 +133,7 @@ def base_streams(stuffing: bool, tier: str):
     if tier == "quick":
         seqs += list(itertools.product(core3, repeat=2))
         seqs += [(a, "short") for a in ("wronglen", "addr24", "segbit")] + [("short", a) for a in ("wronglen", "addr24", "segbit")]
-        seqs += [t for t in itertools.product(core3, repeat=3) if len(set(t)) == 3][:6]
+        seqs += [t for t in itertools.product(core3, repeat=3) if len(set(t)) == 3][:3]
     else:
         seqs += list(itertools.product(short, repeat=2))
         seqs += list(itertools.product(short, repeat=3))
